@@ -26,21 +26,21 @@ func verifOpt(c schema.Constraint) *schema.AttributeSchema {
 func verifSchemaSA() *schema.BodySchema {
 	return &schema.BodySchema{
 		Attributes: map[string]*schema.AttributeSchema{
-			"str":  {Constraint: schema.LiteralType{Type: cty.String}, IsOptional: true, Description: lang.PlainText("a string")},
-			"num":  verifOpt(schema.LiteralType{Type: cty.Number}),
-			"flag": verifOpt(schema.LiteralType{Type: cty.Bool}),
-			"lst":  verifOpt(schema.LiteralType{Type: cty.List(cty.String)}),
-			"mp":   verifOpt(schema.LiteralType{Type: cty.Map(cty.String)}),
-			"obj":  verifOpt(schema.LiteralType{Type: cty.Object(map[string]cty.Type{"a": cty.String, "b": cty.Number})}),
-			"tup":  verifOpt(schema.LiteralType{Type: cty.Tuple([]cty.Type{cty.String, cty.Number})}),
+			"str":    {Constraint: schema.LiteralType{Type: cty.String}, IsOptional: true, Description: lang.PlainText("a string")},
+			"num":    verifOpt(schema.LiteralType{Type: cty.Number}),
+			"flag":   verifOpt(schema.LiteralType{Type: cty.Bool}),
+			"lst":    verifOpt(schema.LiteralType{Type: cty.List(cty.String)}),
+			"mp":     verifOpt(schema.LiteralType{Type: cty.Map(cty.String)}),
+			"obj":    verifOpt(schema.LiteralType{Type: cty.Object(map[string]cty.Type{"a": cty.String, "b": cty.Number})}),
+			"tup":    verifOpt(schema.LiteralType{Type: cty.Tuple([]cty.Type{cty.String, cty.Number})}),
 			"dynobj": verifOpt(schema.LiteralType{Type: cty.Object(map[string]cty.Type{"alpha": cty.DynamicPseudoType, "beta": cty.String})}),
 			"dyntup": verifOpt(schema.LiteralType{Type: cty.Tuple([]cty.Type{cty.DynamicPseudoType, cty.String})}),
 			"adyn":   verifOpt(schema.AnyExpression{OfType: cty.Object(map[string]cty.Type{"alpha": cty.DynamicPseudoType, "beta": cty.Number})}),
 			"lobj":   verifOpt(schema.LiteralType{Type: cty.List(cty.Object(map[string]cty.Type{"k": cty.String, "l": cty.Number}))}),
-			"kw":   verifOpt(schema.Keyword{Keyword: "foo", Name: "kw"}),
-			"lvs":  verifOpt(schema.LiteralValue{Value: cty.StringVal("foo")}),
-			"lvb":  verifOpt(schema.LiteralValue{Value: cty.True}),
-			"lvn":  verifOpt(schema.LiteralValue{Value: cty.NumberIntVal(42)}),
+			"kw":     verifOpt(schema.Keyword{Keyword: "foo", Name: "kw"}),
+			"lvs":    verifOpt(schema.LiteralValue{Value: cty.StringVal("foo")}),
+			"lvb":    verifOpt(schema.LiteralValue{Value: cty.True}),
+			"lvn":    verifOpt(schema.LiteralValue{Value: cty.NumberIntVal(42)}),
 			"one": verifOpt(schema.OneOf{
 				schema.LiteralValue{Value: cty.StringVal("aa")},
 				schema.LiteralValue{Value: cty.StringVal("ab")},
@@ -55,20 +55,20 @@ func verifSchemaSA() *schema.BodySchema {
 				schema.List{Elem: schema.Reference{OfType: cty.String}},
 			}),
 			"hooked": {Constraint: schema.LiteralType{Type: cty.String}, IsOptional: true, CompletionHooks: lang.CompletionHooks{{Name: "verifhook"}}},
-			"astr":  verifOpt(schema.AnyExpression{OfType: cty.String}),
-			"anum":  verifOpt(schema.AnyExpression{OfType: cty.Number}),
-			"abool": verifOpt(schema.AnyExpression{OfType: cty.Bool}),
-			"alst":  verifOpt(schema.AnyExpression{OfType: cty.List(cty.String)}),
-			"aobj":  verifOpt(schema.AnyExpression{OfType: cty.Object(map[string]cty.Type{"a": cty.String})}),
-			"amap":  verifOpt(schema.AnyExpression{OfType: cty.Map(cty.String)}),
-			"any":   verifOpt(schema.AnyExpression{OfType: cty.DynamicPseudoType}),
-			"ref":   verifOpt(schema.Reference{OfScopeId: lang.ScopeId("variable")}),
-			"reft":  verifOpt(schema.Reference{OfType: cty.String}),
-			"typ":   verifOpt(schema.TypeDeclaration{}),
-			"clist": verifOpt(schema.List{Elem: schema.LiteralType{Type: cty.String}}),
-			"cset":  verifOpt(schema.Set{Elem: schema.Keyword{Keyword: "foo"}}),
-			"ctup":  verifOpt(schema.Tuple{Elems: []schema.Constraint{schema.LiteralType{Type: cty.String}, schema.LiteralType{Type: cty.Number}}}),
-			"cmap":  verifOpt(schema.Map{Elem: schema.LiteralType{Type: cty.String}}),
+			"astr":   verifOpt(schema.AnyExpression{OfType: cty.String}),
+			"anum":   verifOpt(schema.AnyExpression{OfType: cty.Number}),
+			"abool":  verifOpt(schema.AnyExpression{OfType: cty.Bool}),
+			"alst":   verifOpt(schema.AnyExpression{OfType: cty.List(cty.String)}),
+			"aobj":   verifOpt(schema.AnyExpression{OfType: cty.Object(map[string]cty.Type{"a": cty.String})}),
+			"amap":   verifOpt(schema.AnyExpression{OfType: cty.Map(cty.String)}),
+			"any":    verifOpt(schema.AnyExpression{OfType: cty.DynamicPseudoType}),
+			"ref":    verifOpt(schema.Reference{OfScopeId: lang.ScopeId("variable")}),
+			"reft":   verifOpt(schema.Reference{OfType: cty.String}),
+			"typ":    verifOpt(schema.TypeDeclaration{}),
+			"clist":  verifOpt(schema.List{Elem: schema.LiteralType{Type: cty.String}}),
+			"cset":   verifOpt(schema.Set{Elem: schema.Keyword{Keyword: "foo"}}),
+			"ctup":   verifOpt(schema.Tuple{Elems: []schema.Constraint{schema.LiteralType{Type: cty.String}, schema.LiteralType{Type: cty.Number}}}),
+			"cmap":   verifOpt(schema.Map{Elem: schema.LiteralType{Type: cty.String}}),
 			"cobj": verifOpt(schema.Object{Attributes: schema.ObjectAttributes{
 				"a": {Constraint: schema.LiteralType{Type: cty.String}, IsRequired: true},
 				"b": {Constraint: schema.AnyExpression{OfType: cty.Number}, IsOptional: true},
@@ -105,13 +105,13 @@ func verifSchemaSA() *schema.BodySchema {
 
 func verifFunctions() map[string]schema.FunctionSignature {
 	return map[string]schema.FunctionSignature{
-		"f0": {ReturnType: cty.String, Description: "no params"},
-		"f1": {ReturnType: cty.String, Params: []function.Parameter{{Name: "a", Type: cty.String}}},
-		"fobj": {ReturnType: cty.Object(map[string]cty.Type{"a": cty.String}), Params: []function.Parameter{{Name: "a", Type: cty.String}}},
-		"fobk": {ReturnType: cty.Object(map[string]cty.Type{"b": cty.Number}), Params: []function.Parameter{{Name: "a", Type: cty.String}}},
-		"fsb":  {ReturnType: cty.Bool, Params: []function.Parameter{{Name: "s", Type: cty.String}, {Name: "b", Type: cty.Bool}}},
-		"f2": {ReturnType: cty.Number, Params: []function.Parameter{{Name: "a", Type: cty.Number}, {Name: "b", Type: cty.Number}}},
-		"fv": {ReturnType: cty.String, Params: []function.Parameter{{Name: "a", Type: cty.String}}, VarParam: &function.Parameter{Name: "rest", Type: cty.String}},
+		"f0":               {ReturnType: cty.String, Description: "no params"},
+		"f1":               {ReturnType: cty.String, Params: []function.Parameter{{Name: "a", Type: cty.String}}},
+		"fobj":             {ReturnType: cty.Object(map[string]cty.Type{"a": cty.String}), Params: []function.Parameter{{Name: "a", Type: cty.String}}},
+		"fobk":             {ReturnType: cty.Object(map[string]cty.Type{"b": cty.Number}), Params: []function.Parameter{{Name: "a", Type: cty.String}}},
+		"fsb":              {ReturnType: cty.Bool, Params: []function.Parameter{{Name: "s", Type: cty.String}, {Name: "b", Type: cty.Bool}}},
+		"f2":               {ReturnType: cty.Number, Params: []function.Parameter{{Name: "a", Type: cty.Number}, {Name: "b", Type: cty.Number}}},
+		"fv":               {ReturnType: cty.String, Params: []function.Parameter{{Name: "a", Type: cty.String}}, VarParam: &function.Parameter{Name: "rest", Type: cty.String}},
 		"provider::ns::fn": {ReturnType: cty.String, Params: []function.Parameter{{Name: "a", Type: cty.String}}},
 	}
 }
@@ -345,7 +345,7 @@ func verifSchemaSB() *schema.BodySchema {
 			},
 			// two levels of dependent bodies
 			"be": {
-				Labels:        []*schema.LabelSchema{{Name: "type", IsDepKey: true}},
+				Labels: []*schema.LabelSchema{{Name: "type", IsDepKey: true}},
 				Body: &schema.BodySchema{Attributes: map[string]*schema.AttributeSchema{"note": {Constraint: str, IsOptional: true}},
 					Blocks: map[string]*schema.BlockSchema{"lifecycle": {Body: &schema.BodySchema{Attributes: map[string]*schema.AttributeSchema{"keep": {Constraint: schema.LiteralType{Type: cty.Bool}, IsOptional: true}}}}}},
 				DependentBody: verifDepMap(verifBeDepEntries()),
@@ -357,6 +357,22 @@ func verifSchemaSB() *schema.BodySchema {
 					ScopeId: lang.ScopeId("dres"), DependentBodyAsData: true, InferDependentBody: true},
 				Body:          &schema.BodySchema{Attributes: map[string]*schema.AttributeSchema{"common": {Constraint: str, IsOptional: true}}},
 				DependentBody: verifDepMap(verifDresDepEntries()),
+			},
+			// a block that implies further targets (targetable-as), nested two deep
+			"tg": {
+				Labels: []*schema.LabelSchema{{Name: "name"}},
+				Body: &schema.BodySchema{
+					Attributes: map[string]*schema.AttributeSchema{"x": {Constraint: num, IsOptional: true}},
+					TargetableAs: schema.Targetables{{
+						Address: lang.Address{lang.RootStep{Name: "tgt"}, lang.AttrStep{Name: "out"}}, ScopeId: lang.ScopeId("tgt"),
+						AsType: cty.Object(map[string]cty.Type{"a": cty.String, "b": cty.Object(map[string]cty.Type{"c": cty.Number})}),
+						NestedTargetables: schema.Targetables{
+							{Address: lang.Address{lang.RootStep{Name: "tgt"}, lang.AttrStep{Name: "out"}, lang.AttrStep{Name: "a"}}, ScopeId: lang.ScopeId("tgt"), AsType: cty.String},
+							{Address: lang.Address{lang.RootStep{Name: "tgt"}, lang.AttrStep{Name: "out"}, lang.AttrStep{Name: "b"}}, ScopeId: lang.ScopeId("tgt"), AsType: cty.Object(map[string]cty.Type{"c": cty.Number}),
+								NestedTargetables: schema.Targetables{{Address: lang.Address{lang.RootStep{Name: "tgt"}, lang.AttrStep{Name: "out"}, lang.AttrStep{Name: "b"}, lang.AttrStep{Name: "c"}}, ScopeId: lang.ScopeId("tgt"), AsType: cty.Number}}},
+						},
+					}},
+				},
 			},
 			// the key label is the second one
 			"lk": {
@@ -411,7 +427,7 @@ func verifSchemaSB() *schema.BodySchema {
 			},
 			// body as data with nested block types
 			"data": {
-				Labels: []*schema.LabelSchema{{Name: "name"}},
+				Labels:  []*schema.LabelSchema{{Name: "name"}},
 				Address: &schema.BlockAddrSchema{Steps: schema.Address{schema.StaticStep{Name: "data"}, schema.LabelStep{Index: 0}}, ScopeId: lang.ScopeId("data"), BodyAsData: true, InferBody: true},
 				Body: &schema.BodySchema{
 					Attributes: map[string]*schema.AttributeSchema{
@@ -421,6 +437,7 @@ func verifSchemaSB() *schema.BodySchema {
 						// computed only: not offered, but decoded where written
 						"arn": {Constraint: schema.AnyExpression{OfType: cty.String}, IsComputed: true}},
 					Blocks: map[string]*schema.BlockSchema{
+						"mp":  {Type: schema.BlockTypeMap, Labels: []*schema.LabelSchema{{Name: "key"}}, Body: &schema.BodySchema{Attributes: map[string]*schema.AttributeSchema{"m": {Constraint: num, IsOptional: true}}}},
 						"lst": {Type: schema.BlockTypeList, Body: &schema.BodySchema{Attributes: map[string]*schema.AttributeSchema{"v": {Constraint: str, IsOptional: true}}}},
 						"obj": {Type: schema.BlockTypeObject, Body: &schema.BodySchema{Attributes: map[string]*schema.AttributeSchema{"w": {Constraint: num, IsOptional: true}}}},
 					},
@@ -442,7 +459,7 @@ func verifSchemaSB() *schema.BodySchema {
 func verifSchemaSH() *schema.BodySchema {
 	return &schema.BodySchema{
 		Blocks: map[string]*schema.BlockSchema{
-			"nobody": {},
+			"nobody":    {},
 			"nobodylbl": {Labels: []*schema.LabelSchema{{Name: "l", IsDepKey: true}}},
 			"dyn": {
 				Labels: []*schema.LabelSchema{{Name: "type", IsDepKey: true}},
@@ -456,8 +473,8 @@ func verifSchemaSH() *schema.BodySchema {
 			"onlybody": {Body: &schema.BodySchema{}},
 			// static body with initialised but empty maps
 			"emptymaps": {
-				Labels: []*schema.LabelSchema{{Name: "type", IsDepKey: true}},
-				Body:   &schema.BodySchema{Attributes: map[string]*schema.AttributeSchema{}, Blocks: map[string]*schema.BlockSchema{}},
+				Labels:        []*schema.LabelSchema{{Name: "type", IsDepKey: true}},
+				Body:          &schema.BodySchema{Attributes: map[string]*schema.AttributeSchema{}, Blocks: map[string]*schema.BlockSchema{}},
 				DependentBody: verifDepMap(verifEmptymapsDepEntries()),
 			},
 		},
@@ -645,7 +662,7 @@ func verifSeedList() []verifSeed {
 		{"be-partial-lifecycle", "be \"s3\" {\n  backend = \"other\"\n  zzz = 1\n  lifecycle {\n    bogus = 1\n  }\n}\n", 2},
 		{"flagged-on", "flagged {\n  on = true\n  extra = \"x\"\n}\n", 2},
 		{"flagged-off", "flagged {\n  on = false\n  extra = \"x\"\n}\n", 2},
-		{"data-lst-separated", "data \"d\" {\n  lst {\n    v = \"a\"\n  }\n  id = \"i\"\n  lst {\n    v = \"b\"\n  }\n  lst {\n    v = \"c\"\n  }\n}\n", 2},
+		{"data-lst-separated", "data \"d\" {\n  lst {\n  }\n  id = \"i\"\n  lst {\n  }\n  lst {\n  }\n}\n", 2},
 		{"locals-keyword-keys", "locals {\n  o = { true = \"x\", false = \"y\", null = \"z\", \"q\" = [ 1, { k = 2 } ] }\n}\n", 2},
 		{"mod-two-refs", "mod \"m\" {\n  source = \"./m\"\n  input = var.foo\n}\nmod \"m\" {\n  source = \"./n\"\n  other = var.foo\n}\n", 2},
 		{"valid-res-dynamic-nested", "res \"aws\" \"a\" {\n  size = 1\n  dynamic \"rule\" {\n    for_each = var.x\n    content {\n      port = 1\n      dynamic \"action\" {\n        for_each = var.x\n        content {\n          kind = \"k\"\n        }\n      }\n    }\n  }\n}\n", 2},
@@ -665,6 +682,20 @@ func verifSeedList() []verifSeed {
 		{"dres-and-res", "dres \"aws\" \"a\" {\n  lookup = \"x\"\n}\nres \"aws\" \"a\" {\n  size = 1\n}\n", 2},
 		{"data-arn", "data \"d\" {\n  arn = var.foo\n  id = \"i\"\n}\n", 2},
 		{"aobj-func-k", "aobj = fob\n", 0},
+		{"data-mp-unsorted", "data \"d\" {\n  mp \"https\" {\n    m = 1\n  }\n  mp \"http\" {\n    m = 2\n  }\n}\n", 2},
+		{"tg", "tg \"t\" {\n  x = 1\n}\n", 2},
+		{"any-idx-call", "any = f1( var.foo )[ var.bar ]\n", 0},
+		{"any-idx-idx", "any = var.dyn[ var.bar ][ var.foo ]\n", 0},
+		{"amap-cond-collection", "amap = true ? { k = var.foo } : { }\n", 0},
+		{"alst-cond-collection", "alst = true ? [ var.foo ] : [ ]\n", 0},
+		{"cobj-paren-after-plain", "cobj = { a = \"x\", (var.foo) = 1 }\n", 0},
+		{"cobj-quoted-partial", "cobj = {\n  \"a\n}\n", 0},
+		{"cobj-quoted-key-novalue", "cobj = { \"a\" = }\n", 0},
+		{"blk-surplus-labels", "blk \"a\" \"b\" \"c\" {\n  req = 1\n}\n", 0},
+		{"call-inner-in-unterminated", "astr = fv( f1( \"x\" ), \n", 0},
+		{"res-rule-dynamic-below-max", "res \"aws\" \"a\" {\n  size = 1\n  rule {\n  }\n  dynamic \"rule\" {\n    for_each = var.x\n    content {\n    }\n  }\n}\n", 2},
+		{"valid-res-rule-dynamic-max", "res \"aws\" \"a\" {\n  size = 1\n  rule {\n  }\n  rule {\n  }\n  dynamic \"rule\" {\n    for_each = var.x\n    content {\n    }\n  }\n}\n", 2},
+		{"res-self-plain", "res \"aws\" \"a\" {\n  size = 1\n  plain {\n    v = self\n  }\n  rule {\n    prio = self\n  }\n}\n", 2},
 		{"mod-dep", "mod \"m\" {\n  source = \"./m\"\n  input = \"i\"\n}\n", 2},
 		{"mod-nodep", "mod \"m\" {\n  source = \"./other\"\n  input = \"i\"\n}\n", 2},
 		{"variable", "variable \"v\" {\n  type = list(string)\n  default = [ \"a\" ]\n}\n", 2},
